@@ -1,20 +1,18 @@
 #!/bin/bash
-# try_mutant.sh <worktree> <PROP> [runs]  -- confirm a seeded change (demo fails with it / passes without it, suite passes)
-# and run the registered quick check of PROP against it, applied temporarily to /repo.
+# try_mutant.sh <worktree> <PROP> [runs]  -- confirm a seeded change (demo fails with it / passes without it, suite
+# passes with it) and run the registered quick check of PROP against it in a scratch worktree of /repo with its own
+# build directory (see mutant_run.sh); /repo itself is not touched.
 wt=$1; prop=$2; runs=${3:-}
 set -u
+here=$(cd "$(dirname "$0")" && pwd)
 cd "$wt" || exit 2
 echo "== demo with change"; bash demo/run.sh > /tmp/p/demo_with.log 2>&1; echo "demo exit (with change): $?"
-echo "== make check with change"; make -j16 check > /tmp/p/mcheck.log 2>&1; echo "make check exit: $?  $(grep -E '^# (PASS|FAIL)' /tmp/p/mcheck.log | tr '\n' ' ')"
+echo "== make check with change"; make -j8 check > /tmp/p/mcheck.log 2>&1; echo "make check exit: $?  $(grep -E '^# (PASS|FAIL)' /tmp/p/mcheck.log | tr '\n' ' ')"
 echo "== demo without change"
-git apply -R mutant.diff && make -j16 > /dev/null 2>&1; bash demo/run.sh > /tmp/p/demo_without.log 2>&1; echo "demo exit (without change): $?"
-git apply mutant.diff && make -j16 > /dev/null 2>&1
-echo "== /verif check against the change"
-if ! git -C /repo apply --check "$wt/mutant.diff"; then echo "patch does not apply to /repo"; exit 2; fi
-git -C /repo apply "$wt/mutant.diff"
-cd /verif
-if [ -n "$runs" ]; then VERIF_RUNS=$runs sim/check $prop > /tmp/p/mut_check.log 2>&1; else sim/check $prop > /tmp/p/mut_check.log 2>&1; fi
-echo "check exit: $?"
-git -C /repo checkout -- .
-git -C /repo status --short | head -3
-grep -E "^VIOLATION|^  key=|^check|KNOWN" /tmp/p/mut_check.log | cut -c1-400
+git apply -R mutant.diff && make -j8 > /dev/null 2>&1; bash demo/run.sh > /tmp/p/demo_without.log 2>&1; echo "demo exit (without change): $?"
+git apply mutant.diff && make -j8 > /dev/null 2>&1
+echo "== /verif check against the change (scratch worktree)"
+rm -rf /verif/seeded/_tmp; mkdir -p /verif/seeded/_tmp; cp "$wt/mutant.diff" /verif/seeded/_tmp/patch.diff
+SHOW=${SHOW:-8} $here/mutant_run.sh _tmp $prop $runs
+cp /tmp/wt/m-_tmp.log /tmp/p/mut_check.log
+rm -rf /verif/seeded/_tmp
